@@ -111,7 +111,7 @@ func selftest(r *rules.Rule, base *core.Ctx) (map[string]interface{}, bool) {
 	}
 	results := make([]res, len(r.Mutants))
 	var wg sync.WaitGroup
-	sem := make(chan struct{}, 6)
+	sem := make(chan struct{}, 12)
 	for i, m := range r.Mutants {
 		wg.Add(1)
 		go func(i int, m rules.Mutant) {
@@ -178,6 +178,8 @@ func selftest(r *rules.Rule, base *core.Ctx) (map[string]interface{}, bool) {
 		counts[x.status]++
 		lines = append(lines, x.name+": "+x.status+" "+x.detail)
 		switch x.status {
+		case "stale":
+			fmt.Printf("SELFTEST-STALE %s: %s\n", x.name, x.detail)
 		case "survived", "false-alarm", "panic", "nocompile":
 			fail = true
 			fmt.Printf("SELFTEST-FAIL %s: %s %s\n", x.name, x.status, x.detail)
